@@ -327,7 +327,9 @@ class Scen:
     def _second(self):
         # keep-alive decisions of both ends at rest
         ct, st = self.links[0]
-        self.keep = (bool(self.connector._conns), not st.is_closing() and not st._lost_called, not ct.is_closing())
+        # pooled = an idle entry the pool would still hand out (`_get` skips entries whose transport is gone)
+        pooled = any(proto.is_connected() for conns in self.connector._conns.values() for (proto, _t) in conns)
+        self.keep = (pooled, not st.is_closing() and not st._lost_called, not ct.is_closing())
         self.gate.set_result(None)
 
     def faults(self):
